@@ -46,7 +46,7 @@ def worker_init():
 
 def plan(tier, seed):
     q = tier == "quick"
-    tasks = pool.batches("mutated", 5000 if q else 80000, 100) + pool.batches("fixed", len(_fixed()) * (2 if q else 6), 20) + pool.batches("special", 250 if q else 3000, 10) + pool.batches("modules", 200 if q else 2000, 20) + pool.batches("constexpr", len(gen_text.CONSTEXPR) * (1 if q else 3), 2)
+    tasks = pool.batches("mutated", 5000 if q else 80000, 100) + pool.batches("fixed", len(_fixed()) * (2 if q else 6), 20) + pool.batches("special", 250 if q else 3000, 10) + pool.batches("modules", 200 if q else 2000, 20) + pool.batches("constexpr", len(gen_text.CONSTEXPR) * (2 if q else 4), 2)
     return dict(tasks=tasks, nworkers=14, time_cap=85 if q else 880, timeout=60)
 
 
@@ -91,7 +91,13 @@ def gen_case(task, i):
     elif st == "special":
         src = (HEADER if r.random() < 0.7 else "") + gen_text.special(r)
     elif st == "constexpr":
-        src = HEADER + gen_text.CONSTEXPR[i % len(gen_text.CONSTEXPR)]
+        body = gen_text.CONSTEXPR[i % len(gen_text.CONSTEXPR)]
+        src = HEADER + body
+        if i >= len(gen_text.CONSTEXPR):
+            # the same constexpr function and call text were compiled just before in this process, further down in
+            # a longer text: whatever the first compile left behind must not speak for the second
+            pad = "".join(r.choice(["db.Mode = 1\n", "# a comment line\n", "\n", "d0.Setting = d1.Setting\n"]) for _ in range(r.randint(4, 14)))
+            return dict(src=src, before=HEADER + pad + body, opts=opts, as_dict=as_dict, stream=st)
     else:
         main = HEADER + r.choice(["from library import a\na.f(1)\n", "from library import a as b\nb.f(1)\nb.f(2)\n", "from library import a, missing\na.f(1)\n", "db.Setting = 1\n", "from library import a\ndb.Setting = a.g\n", "from library import a\na.nothing(1)\n"])
         lib = HEADER + r.choice(["def f(x):\n    db.Setting = x\n", "def f(x)\n    db.Setting = x\n", "g = 5\ndef f(x):\n    return x\n", "", "class X: pass\n", "def f(x):\n    return f(x)\n"])
@@ -123,6 +129,16 @@ def _proc_children(pid):
 
 
 def check_case(case):
+    if case.get("before") is not None:
+        first = check_case(dict(case, src=case["before"], before=None))
+        second = check_case(dict(case, before=None))
+        for k, v in first.get("counters", {}).items():
+            second["counters"][k] = second["counters"].get(k, 0) + v
+        second["counters"]["compiled_after_related_text"] = 1
+        second["violations"] = list(first.get("violations", [])) + list(second.get("violations", []))
+        if second["violations"]:
+            second["verdict"] = "violated"
+        return second
     cc, CO = H.repo()
     src = case["src"]
     kind, ov = case["opts"]
